@@ -60,19 +60,19 @@ CLAIMS = {
 CLAIMS.update({
     'C01': dict(level='proof', text="P: the real SVGLexicalParser.parse + Path builder callbacks are executed symbolically for every command letter (20) x interpreter state (19 stored prefixes enumerating last-two-segments x what the subpath-start scan finds: Move / Close / nothing) x 1-2 operand groups, segment-completing z at every pair position, moves with extra pairs: the appended segments equal one step of SVG 2 section 9.3 (spec/step.py) for all coordinate values. Prefix independence: an audit of the real AST, re-run with every obligation (pyvc/loops.py), checks that the builder state is read from the stored list only through its length, its last two and first elements and two reverse scans that stop at the first Move/Close, so the enumerated prefixes cover every stored list. B: 106k grammar strings (all letters x number spellings x separators x packed flags, random command sequences) against an independent EBNF reader + interpreter.", note='token regexes run on a representative numeral spelling (A5) in the symbolic part; Arc endpoint constructor enters through an assumed contract (bounded check C05/endpoint_arcs)', technique='deductive verification of kernels (pyvc VCs, z3) + labelled bounded run-time contract checks on the real code', design='5 (parser cluster)', assumptions=['A1', 'A2', 'A5', 'A6', 'A7']),
     'C02': dict(level='other', text='P (all t, all matrices): point(t) of Line/Close/Quadratic/Cubic is the Bernstein form; every segment __imul__ maps each defining point; (X*M).point(t)=M(X.point(t)) and (X*A)*B=X*(A*B) for all Bezier kinds with fresh results and unchanged operands; Arc: point_at_t equals the conjugate form under the representation invariant, Arc.__imul__ (after the fix) leaves exactly the image ellipse with orthogonal radius points and a parameter rotation for ANY matrix, lemmas compose these into (arc*M).point_at_t(+-(t-t0))=M(arc.point_at_t(t)). P-shape-bounded: Path.reify, Path.segments(True), Subpath.__imul__, Rect/SimpleLine/Polyshape.segments(True) on representative segment lists. B: Arc.get_start_t (atan2/tan) and round shapes, 40 matrices on the real code.', note='arc start parameter through atan2(tan) is only bounded-checked; orthogonality threshold 1e-12 of Arc.__imul__ stated in the contract', technique='deductive verification of kernels (pyvc VCs, z3) + labelled bounded run-time contract checks on the real code', design='5 (C02)', assumptions=['A1', 'A2', 'A3', 'A7']),
-    'C03': dict(level='exploration', text='Bounded: generated documents (depth<=4, <=12 elements, 12-transform pool, units and percentages, nested svg/use/defs/display:none) x configurations (reify, ppi, caller size/transform) compared shape by shape with an independent evaluator written from SVG 2 (spec/docgeom.py). Kernels proved elsewhere: viewbox_transform (C11), Matrix.parse order (C04), shape decompositions and transformed=image (C06/C02), Length units (C12).', note='whole-document postconditions are not within reach of the deductive verifier (xml.etree C parser, string-typed data flow); 11 defect classes are recorded as known findings', technique='bounded run-time contract on SVG.parse against an independent document evaluator; P kernels on Use/viewport/shape functions', design='5 (document cluster)', assumptions=['A2', 'A7']),
+    'C03': dict(level='exploration', text='Bounded: generated documents (depth<=4, <=12 elements, 12-transform pool, units and percentages, nested svg/use/defs/display:none) x configurations (reify, ppi, caller size/transform) compared shape by shape with an independent evaluator written from SVG 2 (spec/docgeom.py). The viewport transform table (every align x meet/slice/none, all branches of the final translate/scale text) is proved here too (shared with C11). Kernels proved elsewhere: Matrix.parse order (C04), shape decompositions and transformed=image (C06/C02), Length units (C12).', note='whole-document postconditions are not within reach of the deductive verifier (xml.etree C parser, string-typed data flow); the 13 defect classes this check found were repaired (fixed entries of known_findings.json), so no failure is attributed to a known class any more', technique='bounded run-time contract on SVG.parse against an independent document evaluator; P kernels on Use/viewport/shape functions', design='5 (document cluster)', assumptions=['A2', 'A7']),
     'C05': dict(level='other', text='P: degenerate inputs (zero rx / zero ry / coincident endpoints, all flags, all coordinates): endpoints kept, points of the straight line, chord length, ordered box; Arc.point_at_t is the conjugate-diameter form hence on the ellipse; radii/rotation readers. NOT proved: the F.6.5 centre/extent computation of Arc._svg_parameterize - its whole-function VC (308 paths, 4436 conditions, nonlinear with sqrt/acos) exceeded every solver budget; it is covered only by the bounded check C05/endpoint_arcs (grid over points, radii ratios 1e-3..1e3, rotations, flags; independent F.6.5 oracle).', note='F.6.5 parameterisation bounded only; floats as reals', technique='deductive verification of kernels (pyvc VCs, z3) + labelled bounded run-time contract checks on the real code', design='5 (C05)', assumptions=['A1', 'A2', 'A3', 'A7']),
-    'C06': dict(level='other', text='P: Rect corner-radius decision table (16 cells: absent/zero/small/large per axis), sharp and rounded Rect.segments against SVG 2 10.2 (exact edges, quarter-ellipse corner arcs), zero dimension / negative radius, SimpleLine, Circle/Ellipse four quarter arcs from (cx+rx,cy). P-shape-bounded: Polyline/Polygon for point-list lengths 0,1,2,3,5; segments(True) = matrix image of segments(False) for Rect/rounded Rect/SimpleLine/Polyshape. B: Path(shape.d()) round trip, transformed round shapes, documents.', note='round shapes under reflections with zero diagonal keep the un-mirrored direction (known finding, pinned by a test)', technique='deductive verification of kernels (pyvc VCs, z3) + labelled bounded run-time contract checks on the real code', design='5 (C06)', assumptions=['A1', 'A2', 'A3', 'A5', 'A7']),
+    'C06': dict(level='other', text='P: Rect corner-radius decision table (16 cells: absent/zero/small/large per axis), sharp and rounded Rect.segments against SVG 2 10.2 (exact edges, quarter-ellipse corner arcs), zero dimension / negative radius, SimpleLine, Circle/Ellipse four quarter arcs from (cx+rx,cy). P-shape-bounded: Polyline/Polygon for point-list lengths 0,1,2,3,5; segments(True) = matrix image of segments(False) for Rect/rounded Rect/SimpleLine/Polyshape. B: circles, ellipses and rounded rects under 58 matrices (incl. rotation-then-anisotropic-scale and its transpose) sampled against the image of the user-space decomposition (check C05/endpoint_arcs, shape cases).', note='round shapes under reflections with zero diagonal keep the un-mirrored direction (known finding, pinned by a test)', technique='deductive verification of kernels (pyvc VCs, z3) + labelled bounded run-time contract checks on the real code', design='5 (C06)', assumptions=['A1', 'A2', 'A3', 'A5', 'A7']),
     'C07': dict(level='exploration', text='P: for 13 kind sequences (lines, quadratics, cubics, closes, two subpaths) x relative in {None,False,True} x smooth in {None,False,True} x stored flags, Path(p.d(relative, smooth)) has the same kinds and the same points as p for all coordinate values, numerals treated as opaque (A5); the arc command written by Arc.d re-parses to the constructor arguments (end point, radii = lengths of the radius vectors, rotation = direction of the first, flags = extent and direction). B: 2.8k paths from grammar-random strings x 9 (relative, smooth) combinations + subpaths, compared pointwise within the 12-digit format (tolerance stated in the check): this is where the numeral rounding itself is exercised.', note='%-formatting and float() are outside the SMT theories; arc radii printed with 6 digits and Subpath.d without a move are known findings pinned by tests', technique='deductive verification of d() -> parse with opaque numerals (pyvc VCs, z3) + bounded run-time contract on the real code for the 12-digit rounding', design='5 (C07)', assumptions=['A2', 'A5', 'A7']),
     'C08': dict(level='other', text='P: Line/Close/Move boxes; QuadraticBezier.bbox containment for all t in [0,1], ordering and tightness (every side is an endpoint or the interior extremum); implicit_stroke_width = w*sqrt|det|; zero-extent arc box ordered. P-shape-bounded: Shape.bbox = union of segment boxes grown by half the effective stroke width iff a stroke is painted (transformed x with_stroke x paint cases), Group.union_bbox. CubicBezier._real_minmax (closed-form branch |D| >= 1e-8): containment for all t in [0,1], ordering and tightness, by a modular proof - the cubic is parametrised by its critical points, PathSegment.point enters through its contract with abstract values, and four algebraic lemmas (difference identity, monotone pieces, closed-form roots = critical points, no critical point => monotone) are discharged in the same run. B: near-quadratic cubics (|D| < 1e-8), arcs, groups, use - dense sampling oracle.', note='Arc.bbox and the near-quadratic branch of CubicBezier._real_minmax are bounded-checked only', technique='deductive verification of kernels (pyvc VCs, z3) + labelled bounded run-time contract checks on the real code', design='5 (C08)', assumptions=['A1', 'A2', 'A3', 'A7']),
     'C09': dict(level='other', text='P (prefix-independence audit as C01): for every command letter x malformed operand window (0..arity-1 numbers, one group plus extras, trailing garbage, z followed by a number) x 4 stored prefixes, with symbolic numbers: parse returns or raises ValueError only, the stored prefix is retained and every retained segment has numeric coordinates. B: 21.7k arbitrary strings (truncations, token edits, non-ASCII, 1e6-character inputs with a linear-time check) on the real code, then d()/bbox()/length()/transform on the result.', note="ASSUMED (not proved): the endpoint-form Arc constructor returns normally for numeric arguments (bounded: C05/endpoint_arcs, C09/arbitrary_strings). Known finding: 'z' with nothing to close stores Close(None,None) (pinned by tests)", technique='deductive verification of kernels (pyvc VCs, z3) + labelled bounded run-time contract checks on the real code', design='5 (parser cluster)', assumptions=['A1', 'A2', 'A5', 'A6', 'A7']),
-    'C10': dict(level='fault_enumeration', text='Bounded fault enumeration: 40 base documents x every attribute position x malformed-value pools (transforms, colours, lengths, point lists, viewBox, path data, href retargeting incl. cycles): all single faults + sampled pairs/triples; the parse must return a tree and every shape outside the faulty subtree must equal the parse of the document without the faulty element. Kernels (P): Matrix.parse raises ValueError only for every malformed arity (C10/Matrix.parse obligations), path parser windows (C09).', note='document-level; 9 defect classes found by this check were repaired (see known_findings.json fixed entries)', technique='bounded fault enumeration on SVG.parse (real code); exceptional postconditions of value parsers proved as kernels', design='5 (document cluster)', assumptions=['A2', 'A7']),
+    'C10': dict(level='fault_enumeration', text='Bounded fault enumeration: 40 base documents x every attribute position x malformed-value pools (transforms, colours, lengths, point lists, viewBox, path data, href retargeting incl. cycles): all single faults + sampled pairs/triples; the parse must return a tree and every shape outside the faulty subtree must equal the parse of the document without the faulty element. The reference parse (document without the offending element) runs in a second, independent instance of the library, so state a failed element leaves behind cannot colour the expectation; use chains that run into a cycle they are not part of are included. Kernels (P): Matrix.parse raises ValueError only for every malformed arity; the 96 malformed path-data windows of C09 (retained prefix, ValueError only); and on every explored path of every obligation the frame clause module_level_state_is_not_written (no object created by the module body - class attributes, shared helpers - is written by a function under contract, which is what makes one element unable to influence the next).', note='document-level; 9 defect classes found by this check were repaired (see known_findings.json fixed entries)', technique='bounded fault enumeration on SVG.parse (real code); exceptional postconditions of value parsers proved as kernels', design='5 (document cluster)', assumptions=['A2', 'A7']),
     'C14': dict(level='exploration', text='Bounded: full table of the 128 source subsets {attribute, *, type, .class, type.class, #id, inline} per property on the element, ancestors, use, rule-order permutations, comma lists, comments, currentColor, opacities, display:none, transforms x vector-effect x reify, against spec/cascade.py. Kernel (P): implicit_stroke_width = w*sqrt|det|.', note='document-level; one open finding (two classes on one element, rule order)', technique='bounded run-time contract on SVG.parse against an independent cascade evaluator; stroke-width kernel proved', design='5 (document cluster)', assumptions=['A2', 'A7']),
     'C15': dict(level='other', text='P: Linear.length is the Euclidean distance (0 without start), moves contribute 0, distance is invariant under rotation/reflection/translation/reversal and scales by |s| (lemma), circular arc shortcut radius*angle. P-shape-bounded: Shape.length = sum, fractions, Shape.point walk on a representative path, also from a state whose cache is invalid and holds stale fractions; 12 Path / Subpath mutators (append, insert, extend, setitem, delitem, +=, line, closed, reverse, reify, subpath reverse, subpath *=) leave the cached lengths invalid or consistent and length() afterwards is the sum over the present segments. B: true arc length vs Gauss-Legendre quadrature for all segment kinds and error settings.', note='accuracy of the recursive chord subdivision / quadratic closed form is an open finding (error semantics of segment_length)', technique='deductive verification of kernels (pyvc VCs, z3) + labelled bounded run-time contract checks on the real code', design='5 (C15)', assumptions=['A1', 'A2', 'A3', 'A7']),
     'C16': dict(level='other', text='P: per-segment reversal q(t)=p(1-t) for Line/Close/Quadratic/Cubic, involution, Arc.reverse swaps endpoints and negates the sweep keeping the ellipse, Subpath.__imul__ window; an arc that was evaluated and is then reversed or transformed answers like a newly built one (no stale hidden state; t_at_point / point_at_angle / angle_at_point enter through an audited frame contract). S: Path.reverse on 9 and Subpath.reverse on 10 representative kind sequences with symbolic coordinates: reversed order, each segment reversed, closes stay closed, other subpaths untouched, no Point object shared between segments, a following in-place transform maps every point exactly once, twice restores; every Path mutator leaves the cached lengths invalid or consistent. B: 40k paths: all structures with <=3 subpaths and <=5 segments, whole-path and subpath-view reversal, twice, interleaved with a transform, against an independent reversal.', note='path-level relinking of subpaths without their own move is bounded only; five defect classes for subpaths without their own move are open findings', technique='deductive verification of kernels (pyvc VCs, z3) + labelled bounded run-time contract checks on the real code', design='5 (C16)', assumptions=['A1', 'A2', 'A7']),
     'C17': dict(level='other', text='P: Path.__iadd__/__add__ with text equal continuing the parse on the stored state (state-dependent tails t, l, s, z after each kind of prefix), __add__ leaves the operand unchanged and shares nothing, Move + text; the continuation itself is the C01 step obligations, which depend on the stored segments only. B: 50k command-boundary splits of grammar strings.', note='as C01', technique='deductive verification of kernels (pyvc VCs, z3) + labelled bounded run-time contract checks on the real code', design='5 (parser cluster)', assumptions=['A1', 'A2', 'A5', 'A7']),
     'C18': dict(level='other', text='P (decided on the final symbolic heap): copy of Point/Matrix/Color/Length and of every segment kind (with and without start, all flags) is equal in value, a distinct object, shares no mutable object and leaves the source unchanged; Matrix operators fresh/unchanged (C04). P-shape-bounded: copy(shape), Path(path/subpath/shape), shape*M, abs(shape), Group copy with nested group - reach(result) and reach(source) disjoint - on representative segment/point lists.', note='list-valued fields have a representative shape (one element of every kind)', technique='deductive verification of kernels (pyvc VCs, z3) + labelled bounded run-time contract checks on the real code', design='5 (C18)', assumptions=['A1', 'A2', 'A5', 'A7']),
-    'C19': dict(level='other', text='P: zero extent yields no curves. P-shape-bounded (explicit counts 0,1,2,3,5; coordinates, radii, rotation, sweep symbolic): exactly n curves of the requested kind, first starts at the arc start, last ends at the arc end, consecutive curves join exactly, no point object shared with the arc. B: radial error <= 1e-3 / 1e-2 of the larger radius at the default subdivision and non-increasing under refinement; paths with embedded arcs.', note='the error bound is an accuracy claim checked only on the bounded family', technique='deductive verification of kernels (pyvc VCs, z3) + labelled bounded run-time contract checks on the real code', design='5 (C19)', assumptions=['A1', 'A2', 'A3', 'A7']),
+    'C19': dict(level='other', text='P: zero extent yields no curves. P-shape-bounded (explicit counts 0,1,2,3,5; coordinates, radii, rotation, sweep symbolic): exactly n curves of the requested kind, first starts at the arc start, last ends at the arc end, consecutive curves join exactly, no point object shared with the arc; for counts 1,2,3 and both orientations of the stored radius vectors: interior joints are the arc points at equal parameter steps, cubic control points lie on the arc tangents at both ends in the direction of travel, quadratic control points on the ray through the mid-parameter point; Path.approximate_arcs_with_cubics/quads on 7 kind sequences (arc first, last, alone, repeated, before a close): no arc remains, each became its chain in place, other segments untouched, path connected. B: radial error <= 1e-3 / 1e-2 of the larger radius at the default subdivision and non-increasing under refinement; paths with embedded arcs.', note='the error bound is an accuracy claim checked only on the bounded family', technique='deductive verification of kernels (pyvc VCs, z3) + labelled bounded run-time contract checks on the real code', design='5 (C19)', assumptions=['A1', 'A2', 'A3', 'A7']),
     'C20': dict(level='exploration', text='Bounded: documents of the C03 generator and constructor-built trees, string_xml / write_xml (svg, svgz), re-parse and compare shapes, geometry (1e-6), paint, ids; second generation stability.', note='document-level; 8 defect classes are open findings', technique='bounded run-time contract write -> parse on the real code', design='5 (document cluster)', assumptions=['A2', 'A7']),
 })
 
